@@ -105,6 +105,11 @@ def matched_text(ttype, rx, c):
 
 def run_rule(cx, rule, state, want):
     name, fn, ttype, rx = rule
+    if not isinstance(getattr(HT.HeadTailLexer, "LEXER_ATTR", None), str):
+        # anchor of C04 / C14: the head/tail tracker is an attribute of the lexer object in use (token.lexer), named by
+        # HeadTailLexer.LEXER_ATTR; when it lives elsewhere the step contract cannot even be arranged - reported, not crashed on
+        return [("C04-H/%s/%s/lexer-state: the tracker is kept on the lexer in use (HeadTailLexer.LEXER_ATTR)" % (name, state),
+                 (False, {"why": "HeadTailLexer.LEXER_ATTR is gone: the tracker is no longer an attribute of token.lexer"}))]
     m = matched_text(ttype, rx, cx)
     lexer = SpyLexer()
     tok = lex.LexToken()
